@@ -156,6 +156,9 @@ class Relay(recorded.Module):
                                      "-callers", 3, "-requests", 10, "-updates", "-vetoes"]))
             recs.append(("updates-only", ["relay", "-seed", sd + 6, "-runs", 100 if th else 30, "-plugins", 6,
                                           "-callers", 1, "-requests", 4, "-updates"]))
+            # callbacks that outlast the request timeout (an update has no deadline), plugins gone before theirs returns
+            recs.append(("updates-slow", ["relay", "-seed", sd + 9, "-runs", 40 if th else 10, "-plugins", 4,
+                                          "-callers", 1, "-requests", 3, "-updates", "-slowupd"]))
         return recs
 
     def label_sig(self, label, detail):
